@@ -159,8 +159,12 @@ STAKING_REACH_EXITS = ["DelegateOk", "DelegateFromWaitList", "DelegateTooBig", "
                        "UpdateBetweenPayouts", "ValidatorLeaves", "ValidatorLeavesWithAccum", "ValidatorJoins", "UpdatesMerged", "EmptiedStakeGone"]
 STAKING_REACH_PUNISH = ["TooAbsent", "JailedForAbsence", "SwitchedOffInGrace", "SwitchOnJailed", "SwitchOnAfterJail", "Evidence", "EvidenceTwice",
                         "EvidenceWithUnbondingFunds", "EvidenceWithFundsDueNow", "EvidenceAgainstOffline", "EvidenceAndAbsenceTogether", "Payout", "ValidatorLeaves"]
-MC["staking"] = {"quick": [("MCStaking", "mc/MCStaking_exits.cfg", {"reach": STAKING_REACH_EXITS}), ("MCStaking", "mc/MCStaking_punish.cfg", {"reach": STAKING_REACH_PUNISH})],
-                 "thorough": [("MCStaking", "mc/MCStaking_exits_t.cfg", {"reach": STAKING_REACH_EXITS}), ("MCStaking", "mc/MCStaking_punish_t.cfg", {"reach": STAKING_REACH_PUNISH})]}
+STAKING_REACH_VOTES = ["VoteOk", "VoteExpired", "VoteTwice", "VoteByStranger", "Halted", "HaltVotesNotEnough", "HaltExactlyTwoThirds", "UpdateApplied",
+                       "UpdateVotesNotEnough", "UpdateCompeting", "VotesForgotten"]
+MC["staking"] = {"quick": [("MCStaking", "mc/MCStaking_exits.cfg", {"reach": STAKING_REACH_EXITS}), ("MCStaking", "mc/MCStaking_punish.cfg", {"reach": STAKING_REACH_PUNISH}),
+                           ("MCStaking", "mc/MCStaking_votes.cfg", {"reach": STAKING_REACH_VOTES})],
+                 "thorough": [("MCStaking", "mc/MCStaking_exits_t.cfg", {"reach": STAKING_REACH_EXITS}), ("MCStaking", "mc/MCStaking_punish_t.cfg", {"reach": STAKING_REACH_PUNISH}),
+                              ("MCStaking", "mc/MCStaking_votes.cfg", {"reach": STAKING_REACH_VOTES})]}
 def markets(tier, seed):
     rnd = random.Random("%d/markets" % seed)
     pool_model = gens_markets.from_pool_model(vlib.tlc_generate_raw("MCPools", "gen/MCPoolsGen.cfg", big=True))
